@@ -1,7 +1,7 @@
 (* C11 — property theorems, part 2, over the proxy tables REGENERATED on this run (GenTables.v / GenSpec.v,
    translators/tr_imports); copied to build/C11/GenZ_TableProps.v by a pre_step and compiled after them. *)
 From Coq Require Import List NArith ZArith Bool.
-From Verif Require Import Common.GoStr C32.Model C31.Model C31.Proof C31.Props C11.Model C11.Proof C11.Props.
+From Verif Require Import Common.GoStr C31.Untyped C31.Model C31.Proof C31.Props C11.Model C11.Proof C11.Props.
 Require Import GenTables GenSpec.
 Import ListNotations.
 Open Scope N_scope.
